@@ -181,12 +181,15 @@ class SgzCropper(SgzReader):
             If indexes to crop on are missing, or do not align with the compression blocks
         """
 
+        if self.is_2d:
+            raise WrongDimensionalityError("Trying to crop 2D file")
+        if not self.structured:
+            # Header arrays of unstructured files cannot be cropped as a grid, decline before writing anything
+            raise NotImplementedError("Cropping is not supported for files with irregular geometry")
+
         iline_index_range, xline_index_range, zslices_index_range = self.check_and_correct_bounds(iline_index_range,
                                                                                                   xline_index_range,
                                                                                                   zslices_index_range)
-
-        if self.is_2d:
-            raise WrongDimensionalityError("Trying to crop 2D file")
 
         header = self.regenerate_header(iline_index_range, xline_index_range, zslices_index_range)
         compressed_bytes = self.read_block_range(iline_index_range, xline_index_range, zslices_index_range)
